@@ -12,8 +12,10 @@ import (
 	"fmt"
 	"math/big"
 	"os"
+	"runtime"
 	"sort"
 	"strings"
+	"sync"
 
 	"github.com/influxdata/influxdb/v2/models"
 	"github.com/influxdata/influxdb/v2/tsdb"
@@ -646,7 +648,7 @@ func keysInPartition(probe *tsdb.SeriesFile, p, n int, prefix string, tagged fun
 
 func main() {
 	w := vh.New("C13", "From Verif Require Import Base.Prelude Model.C13.", "case", "check")
-	w.Rule = "one case = one history on a fresh real tsdb.SeriesFile: 4-12 ops drawn from create(batch of 1-3 keys, duplicates allowed)/delete(id of a live key, an old id, an unissued id, 0)/reopen/compact/crash_create/crash_delete(cut after n bytes of the appended entry) over a domain of 6-9 series keys concentrated in 2-3 of the 8 partitions (measurement-only keys ending in a 0 byte, tagged keys, one key > 127 bytes with a 2-byte length varint); hand-picked histories first, incl. sweeps of EVERY cut point n of the last entry and 'big' histories with 33+ series in one partition (ids >= 256) where a cut inside the id bytes aliases another id (known finding). Plus segment roll-over histories (gen=roll-*: 64 keys of ~64 KiB fill segment 0000 of one partition leaving a chosen number of free bytes; tombstone/insert rolls into segment 0001; reopen / crash right after the roll-over / create) judged by the trace oracle only. Non-trivial: a create is followed by a delete/reopen/compact/crash step. Distinct: distinct Gallina terms."
+	w.Rule = "one case = one history on a fresh real tsdb.SeriesFile: 4-12 ops drawn from create(batch of 1-3 keys, duplicates allowed)/delete(id of a live key, an old id, an unissued id, 0)/reopen/compact/crash_create/crash_delete(cut after n bytes of the appended entry) over a domain of 6-9 series keys concentrated in 2-3 of the 8 partitions (measurement-only keys ending in a 0 byte, tagged keys, one key > 127 bytes with a 2-byte length varint); hand-picked histories first, incl. sweeps of EVERY cut point n of the last entry and 'big' histories with 33+ series in one partition (ids >= 256) where a cut inside the id bytes aliases another id (known finding). Plus segment roll-over histories (gen=roll-*: 64 keys of ~64 KiB fill segment 0000 of one partition leaving a chosen number of free bytes; tombstone/insert rolls into segment 0001; reopen / crash right after the roll-over / create) judged by the trace oracle only. Plus one concurrent-create stress case (barrier-released goroutines creating the same fresh keys; Go-side assertions only). Non-trivial: a create is followed by a delete/reopen/compact/crash step. Distinct: distinct Gallina terms."
 	var rc jcase
 	if w.ReplayCase(&rc) {
 		emit(w, &rc)
@@ -704,6 +706,8 @@ func main() {
 	for _, rc := range rollCases(probe, r, w.N) {
 		emit(w, rc)
 	}
+	// ---- concurrent-create stress (runtime assertion on the real code, outside the Coq model)
+	stress(w, r)
 	w.Extra["handpicked"] = w.Len()
 
 	// ---- random histories ----
@@ -845,6 +849,148 @@ func rollCases(probe *tsdb.SeriesFile, r interface{ IntN(int) int }, n int) []*j
 		mk(p, tail, "roll-random", ops...)
 	}
 	return out
+}
+
+// stress: R rounds; in each, G goroutines released together by a barrier call
+// SeriesFile.CreateSeriesListIfNotExists with overlapping, differently ordered key lists that
+// all contain the same FRESH keys.  After each round: every caller got the same id for the
+// same key, ids of distinct keys are distinct, SeriesKey(id) = key, SeriesID(key) = id, and the
+// number of series in the file equals the number of distinct keys created so far.
+type jstress struct {
+	Kind    string `json:"kind"`
+	Rounds  int    `json:"rounds"`
+	Failed  string `json:"impl_failed,omitempty"`
+	Round   int    `json:"failed_round,omitempty"`
+	Writers int    `json:"failed_round_writers,omitempty"`
+	Procs   int    `json:"failed_round_gomaxprocs,omitempty"`
+	NKeys   int    `json:"failed_round_fresh_keys,omitempty"`
+}
+
+func stress(w *vh.W, r interface{ IntN(int) int }) {
+	rounds := 240
+	if w.N >= 2000 {
+		rounds = 1500
+	}
+	d := &jstress{Kind: "concurrent-create-stress", Rounds: rounds}
+	fail := func(what string) {
+		d.Failed = what
+		idx := w.Add(emptyCase, d, true, "")
+		w.Fail(idx, "concurrent create stress: "+what, "")
+	}
+	base := ""
+	if st, e := os.Stat("/dev/shm"); e == nil && st.IsDir() {
+		base = "/dev/shm"
+	}
+	dir, err := os.MkdirTemp(base, "c13s-")
+	if err != nil {
+		fail(err.Error())
+		return
+	}
+	defer os.RemoveAll(dir)
+	sf := tsdb.NewSeriesFile(dir)
+	if err := sf.Open(); err != nil {
+		fail(err.Error())
+		return
+	}
+	defer sf.Close()
+	oldProcs := runtime.GOMAXPROCS(0)
+	defer runtime.GOMAXPROCS(oldProcs)
+	total := 0
+	owner := map[uint64]string{}
+	for round := 0; round < rounds; round++ {
+		g := 4 + r.IntN(5)
+		procs := []int{2, 4, 8, oldProcs}[r.IntN(4)]
+		runtime.GOMAXPROCS(procs)
+		nk := 1 + r.IntN(6)
+		names := make([]string, nk)
+		for j := range names {
+			names[j] = fmt.Sprintf("st%d_%d", round, j)
+		}
+		yield := r.IntN(3) == 0
+		lists := make([][]int, g)
+		for i := range lists {
+			// every writer has all fresh keys (rotated), some twice
+			off := r.IntN(nk)
+			for j := 0; j < nk; j++ {
+				lists[i] = append(lists[i], (off+j)%nk)
+			}
+			if r.IntN(2) == 0 {
+				lists[i] = append(lists[i], r.IntN(nk))
+			}
+		}
+		res := make([][]uint64, g)
+		errs := make([]error, g)
+		panics := make([]string, g)
+		start := make(chan struct{})
+		var ready, done sync.WaitGroup
+		for i := 0; i < g; i++ {
+			ready.Add(1)
+			done.Add(1)
+			go func(i int) {
+				defer done.Done()
+				ns := make([][]byte, len(lists[i]))
+				ts := make([]models.Tags, len(lists[i]))
+				for j, k := range lists[i] {
+					ns[j] = []byte(names[k])
+				}
+				ready.Done()
+				<-start
+				if yield && i%2 == 0 {
+					runtime.Gosched()
+				}
+				panics[i] = vh.Guard(func() { res[i], errs[i] = sf.CreateSeriesListIfNotExists(ns, ts) })
+			}(i)
+		}
+		ready.Wait()
+		close(start)
+		done.Wait()
+		total += nk
+		what := ""
+		ids := make([]uint64, nk)
+		for i := 0; i < g && what == ""; i++ {
+			if panics[i] != "" {
+				what = "panic: " + panics[i]
+			} else if errs[i] != nil {
+				what = "error: " + errs[i].Error()
+			}
+			for j, k := range lists[i] {
+				if what != "" {
+					break
+				}
+				id := res[i][j]
+				if id == 0 {
+					what = fmt.Sprintf("writer %d got id 0 for key %s", i, names[k])
+				} else if ids[k] == 0 {
+					ids[k] = id
+				} else if ids[k] != id {
+					what = fmt.Sprintf("two concurrent callers were told different ids for the same new series %s: %d and %d", names[k], ids[k], id)
+				}
+			}
+		}
+		for k := 0; k < nk && what == ""; k++ {
+			key := tsdb.AppendSeriesKey(nil, []byte(names[k]), nil)
+			if prev, dup := owner[ids[k]]; dup {
+				what = fmt.Sprintf("id %d given to %s was already the id of %s", ids[k], names[k], prev)
+			} else if got := sf.SeriesID([]byte(names[k]), nil, nil); got != ids[k] {
+				what = fmt.Sprintf("SeriesID(%s) = %d but the create returned %d", names[k], got, ids[k])
+			} else if kb := sf.SeriesKey(ids[k]); !bytes.Equal(kb, key) {
+				what = fmt.Sprintf("SeriesKey(%d) is not the key of %s", ids[k], names[k])
+			}
+			owner[ids[k]] = names[k]
+		}
+		if what == "" {
+			if n := sf.SeriesCount(); n != uint64(total) {
+				what = fmt.Sprintf("the file holds %d series ids but only %d distinct keys were ever created (an id was issued twice for one key)", n, total)
+			}
+		}
+		if what != "" {
+			d.Round, d.Writers, d.Procs, d.NKeys = round, g, procs, nk
+			fail(fmt.Sprintf("round %d (writers=%d GOMAXPROCS=%d fresh keys=%d gosched=%v): %s", round, g, procs, nk, yield, what))
+			return
+		}
+	}
+	w.Count("stress_rounds", fmt.Sprint(rounds))
+	w.Add(emptyCase, d, true, "")
 }
 
 func pickID(r interface{ IntN(int) int }, issued []uint64) uint64 {
